@@ -1907,7 +1907,11 @@ class MindsDBParser(Parser):
 
     @_('INTEGER')
     def integer(self, p):
-        return int(p[0])
+        try:
+            return int(p[0])
+        except ValueError:
+            # python refuses to convert digit strings beyond sys.get_int_max_str_digits()
+            raise ParsingException(f'Integer literal is too long ({len(p[0])} digits)')
 
     @_('QUOTE_STRING')
     def quote_string(self, p):
